@@ -32,7 +32,7 @@ def world():
         w[nm] = z3.Bool(nm)
     for nm in ('ast_us', 'depth', 'opt_depth'):
         w[nm] = z3.Int(nm)
-    w['micros'] = lambda dt: zint(dt.us) if isinstance(dt, DT) else z3.IntVal(-1)
+    w['instant_us'] = lambda dt: zint(dt.us) if isinstance(dt, DT) else z3.IntVal(-1)
     w['params_of'] = lambda period, k, kind: z3.BoolVal(
         isinstance(period.f['adaptationSets'], PyList) and len(period.f['adaptationSets'].items) > k and
         period.f['adaptationSets'].items[k].f.get('got_params') == {'k': kind} and
@@ -223,8 +223,8 @@ def create_period_contract():
                 'is_https_request': lambda eng, e, a, kw: False},
         ctors={'Period': period},
         modifies=['self.options.availabilityStartTime', 'self.options.timeShiftBufferDepth', 'self.cgi_params', 'self.locationURL'],
-        ensures=[('urls_carry_the_resolved_window', 'micros(ast_at_url_time) == ast_us and depth_at_url_time == depth'),
-                 ('options_keep_the_resolved_window', 'micros(self.options.availabilityStartTime) == ast_us and self.options.timeShiftBufferDepth == depth'),
+        ensures=[('urls_carry_the_resolved_window', 'instant_us(ast_at_url_time) == ast_us and depth_at_url_time == depth'),
+                 ('options_keep_the_resolved_window', 'instant_us(self.options.availabilityStartTime) == ast_us and self.options.timeShiftBufferDepth == depth'),
                  ('each_type_gets_its_own_parameters', "params_of(result, 0, 'video') and params_of(result, 1, 'audio') and "
                                                        "params_of(result, 2, 'audio') and params_of(result, 3, 'text') and "
                                                        'length(result.adaptationSets) == 4')],
